@@ -6,6 +6,8 @@ import (
 	"strings"
 
 	"github.com/go-kid/ioc/util/vsync"
+
+	"verif/internal/core"
 )
 
 // SchedStats of one schedule exploration.
@@ -98,6 +100,7 @@ func ExploreSched(bound int, maxExecs int64, stop func() bool, body func(), afte
 		it := stack[len(stack)-1]
 		stack = stack[:len(stack)-1]
 		before := RaceLogSize()
+		core.Tick()
 		vsync.Script = it.pre
 		vsync.Begin()
 		dead := false
